@@ -82,6 +82,20 @@ def check_grammars(ctx, n, own="C01", **kw):
                             ctx.correspondence_breaks.append(("bash-template-model", {
                                 "grammar": text, "words": ws, "prefix": p, "wordbreaks": "default" if wb is None else wb,
                                 "bash": got, "model": spec["model"]}))
+                # (S) ... and the calls of the external commands the model makes vs the probe log of the real bash, in order
+                mc = spec.get("model_calls", "absent")
+                if mc != "absent":
+                    real = []
+                    for l in log:
+                        f = l.split("\t")
+                        if len(f) >= 4 and f[0] == "PROBE":
+                            real.append((int(f[1]), f[2], f[3]))
+                    ctx.count("template-model-calls-compared")
+                    if mc != real:
+                        ctx.count("template-model-calls-differ" if sorted(mc) != sorted(real) else "template-model-calls-order-differs")
+                        if len([b for b in ctx.correspondence_breaks if b[0] == "bash-template-model-calls"]) < 5:
+                            ctx.correspondence_breaks.append(("bash-template-model-calls", {
+                                "grammar": text, "words": ws, "prefix": p, "bash": real[:12], "model": mc[:12]}))
                 rp = {"grammar": text, "grammar_hex": core.hexs(text), "probe_outputs": pg.outputs, "words": ws, "prefix": p,
                       "wordbreaks": "default" if wb is None else wb, "bash": {"rc": brc, "COMPREPLY": reply}, "spec": want}
                 if own == "C01":
